@@ -105,15 +105,16 @@ type fakeStream struct {
 	recvErr error
 	sendErr error
 	ctx     context.Context
+	tag     string // "" for the stream under observation, "2" for a second stream that is open at the same time
 }
 
 func (f *fakeStream) Context() context.Context { return f.ctx }
 func (f *fakeStream) RecvMsg(m interface{}) error {
-	f.lg.add("wrapped:recv")
+	f.lg.add("wrapped" + f.tag + ":recv")
 	return f.recvErr
 }
 func (f *fakeStream) SendMsg(m interface{}) error {
-	f.lg.add("wrapped:send")
+	f.lg.add("wrapped" + f.tag + ":send")
 	return f.sendErr
 }
 
@@ -375,14 +376,27 @@ func streamCase(idx int64, r *rand.Rand) {
 	if useSendL {
 		opts = append(opts, gclGrpc.WithStreamSendLimiter(sendL))
 	}
-	if useCls {
+	// the two response classifiers are configured independently: both, none, or only one of them (the other direction
+	// then runs on the default classifier: error => dropped)
+	useSrvCls, useCliCls := useCls, useCls
+	if useCls && r.IntN(3) == 0 {
+		if r.IntN(2) == 0 {
+			useSrvCls = false
+		} else {
+			useCliCls = false
+		}
+	}
+	if useSrvCls {
 		opts = append(opts, gclGrpc.WithStreamServerResponseTypeClassifier(func(ctx context.Context, req interface{}, info *golangGrpc.StreamServerInfo, err error) gclGrpc.ResponseType {
 			lg.add("classify:stream-server")
 			if req != curMsg || info != sinfo || err != curErr {
 				lg.add("badargs:classify:stream-server")
 			}
 			return respTypes[clsOut]
-		}), gclGrpc.WithStreamClientResponseTypeClassifier(func(ctx context.Context, req interface{}, info *golangGrpc.StreamServerInfo, err error) gclGrpc.ResponseType {
+		}))
+	}
+	if useCliCls {
+		opts = append(opts, gclGrpc.WithStreamClientResponseTypeClassifier(func(ctx context.Context, req interface{}, info *golangGrpc.StreamServerInfo, err error) gclGrpc.ResponseType {
 			lg.add("classify:stream-client")
 			if req != curMsg || info != sinfo || err != curErr {
 				lg.add("badargs:classify:stream-client")
@@ -390,6 +404,7 @@ func streamCase(idx int64, r *rand.Rand) {
 			return respTypes[clsOut]
 		}))
 	}
+	servedBy := map[string]string{} // configured classifier -> the one direction it has been consulted for on this stream
 	if useExc {
 		opts = append(opts, gclGrpc.WithStreamRecvLimitExceededResponseClassifier(func(ctx context.Context, method string, req interface{}, l core.Limiter) (interface{}, codes.Code, error) {
 			lg.add("exceeded:recv")
@@ -418,8 +433,47 @@ func streamCase(idx int64, r *rand.Rand) {
 	var seq []string
 	handlerRet := fmt.Errorf("handler result")
 	bad := false
+	// a second stream, through another interceptor with its own limiters and transport, is opened (and used) while the
+	// first one is in the middle of its handler: the first stream's later operations still belong to the first stream
+	overlapAt := -1
+	if r.IntN(3) == 0 {
+		overlapAt = r.IntN(nops)
+	}
+	recv2, send2 := &recLimiter{lg: lg, name: "recv2", grant: true}, &recLimiter{lg: lg, name: "send2", grant: true}
+	ic2 := gclGrpc.StreamServerInterceptor(gclGrpc.WithStreamRecvLimiter(recv2), gclGrpc.WithStreamSendLimiter(send2))
+	secondStream := func() bool {
+		fs2 := &fakeStream{lg: lg, ctx: context.Background(), tag: "2"}
+		okAll := true
+		_ = ic2("srv2", fs2, &golangGrpc.StreamServerInfo{FullMethod: "/svc/S2"}, func(srv interface{}, ss2 golangGrpc.ServerStream) error {
+			for k := 0; k < 1+r.IntN(2); k++ {
+				lg.ev = nil
+				dir := "recv"
+				if r.IntN(2) == 0 {
+					dir = "send"
+					_ = ss2.SendMsg("m2")
+				} else {
+					_ = ss2.RecvMsg("m2")
+				}
+				nA, _ := count(lg.ev, "acquire:"+dir+"2")
+				nT, _ := count(lg.ev, "acquire:")
+				nW, _ := count(lg.ev, "wrapped2:"+dir)
+				nC, _ := count(lg.ev, "complete:"+dir+"2")
+				if nA != 1 || nT != 1 || nW != 1 || nC != 1 {
+					okAll = false
+					rt.Violation("C14/stream-"+dir+"/second-open-stream-did-not-run-on-its-own-limiter-and-transport", idx, rt.J{"events": lg.ev})
+				}
+			}
+			return nil
+		})
+		rt.Count("streams_opened_while_another_is_open", 1)
+		return okAll
+	}
 	ret := ic("srv", fs, sinfo, func(srv interface{}, ss golangGrpc.ServerStream) error {
 		for i := 0; i < nops && !bad; i++ {
+			if i == overlapAt && !secondStream() {
+				bad = true
+				return nil
+			}
 			send := r.IntN(2) == 0
 			granted := r.IntN(4) != 0
 			recvL.grant, sendL.grant = granted, granted
@@ -442,7 +496,7 @@ func streamCase(idx int64, r *rand.Rand) {
 			seq = append(seq, fmt.Sprintf("%s granted=%v err=%v", name, granted, opErr != nil))
 			rt.Count("stream_ops", 1)
 			cfg := rt.J{"kind": "stream-" + name, "op_index": i, "ops_so_far": seq, "granted": granted, "with_recv_limiter": useRecvL,
-				"with_send_limiter": useSendL, "with_classifiers": useCls, "with_exceeded_classifiers": useExc,
+				"with_send_limiter": useSendL, "with_server_response_classifier": useSrvCls, "with_client_response_classifier": useCliCls, "with_exceeded_classifiers": useExc,
 				"op_error": fmt.Sprint(opErr), "classifier_result": outcomes[clsOut]}
 			fail := func(sig string, extra rt.J) {
 				extra["config"], extra["events"] = cfg, lg.ev
@@ -468,13 +522,39 @@ func streamCase(idx int64, r *rand.Rand) {
 			want := "success"
 			needCls := false
 			if opErr != nil {
-				if useCls {
+				switch {
+				case useSrvCls && useCliCls:
 					want, needCls = outcomes[clsOut], true
-				} else {
+				case useSrvCls || useCliCls:
+					// one classifier configured: this direction is served either by it or by the default (error => dropped), and a
+					// classifier serves one direction only - never both
+					ns, _ := count(lg.ev, "classify:stream-server")
+					nc, _ := count(lg.ev, "classify:stream-client")
+					consulted := ""
+					if ns > 0 {
+						consulted = "classify:stream-server"
+					} else if nc > 0 {
+						consulted = "classify:stream-client"
+					}
+					want = "dropped"
+					if consulted != "" {
+						want = outcomes[clsOut]
+						if ns+nc != 1 || (ns > 0 && !useSrvCls) || (nc > 0 && !useCliCls) {
+							fail("classifier-consultation-count", rt.J{"server": ns, "client": nc})
+							return nil
+						}
+						if d, seen := servedBy[consulted]; seen && d != name {
+							fail("one-response-classifier-consulted-for-both-directions", rt.J{"classifier": consulted, "first_served": d, "now": name})
+							return nil
+						}
+						servedBy[consulted] = name
+					}
+					rt.Count("stream_ops_with_only_one_response_classifier_configured", 1)
+				default:
 					want = "dropped"
 				}
 			}
-			if !judge(idx, "stream-"+name, lg, cfg, lim, []string{other}, granted, tag, want,
+			if !judge(idx, "stream-"+name, lg, cfg, lim, []string{other, "recv2", "send2"}, granted, tag, want,
 				[]string{"classify:stream-server", "classify:stream-client"}, needCls) {
 				bad = true
 				return nil
